@@ -50,6 +50,8 @@ def cases(tier, seed):
             for mid, pc in (((1, 1), (65535, 255), (256, 3)) if n <= 2 else ((7, 5),)):
                 yield {'part': 'move', 'n': n, 'vec': ''.join(vec), 'mid': mid, 'pc': pc, 'dest': True}
     yield {'part': 'move', 'n': 0, 'vec': '', 'mid': 9, 'pc': 1, 'dest': False}
+    for vec in ('r', 'rs', 'sr', 'srs', 'rr', 'wrf', 'srsr'):
+        yield {'part': 'move', 'n': len(vec), 'vec': vec, 'mid': 21, 'pc': 3, 'dest': True}
     for n in (0, 2):
         yield {'part': 'move', 'n': n, 'vec': 's' * n, 'mid': 77, 'pc': 3, 'dest': True, 'refuse': True}
     for p in range(3 if tier == 'quick' else 4):
@@ -76,6 +78,12 @@ def _move_ae(case, log):
             self.k = 0
 
         def get_scu(self, sop_class):
+            if case['vec'][self.k] == 'r':
+                # the destination has not accepted a context for this instance's class: it cannot be sent - a failed sub-operation
+                self.k += 1
+                from pynetdicom2 import exceptions
+                raise exceptions.ClassNotSupportedError('SOP Class %s not supported as SCU' % sop_class)
+
             def store(ds, msg_id):
                 log.append(('store', str(ds.SOPInstanceUID), str(sop_class)))
                 st = OUT[case['vec'][self.k]]
@@ -126,7 +134,7 @@ def run_case(case):
                 exc, len([1 for d, i in link.log if d == 'scp->scu']), where)))
         n = case['n'] if not case.get('refuse') else 0
         stores = [x[1] for x in log if x[0] == 'store']
-        if stores != ['1.2.9.%d' % (i + 1) for i in range(n)]:
+        if stores != ['1.2.9.%d' % (i + 1) for i in range(n) if case['vec'][i:i + 1] != 'r']:
             viol.append((sig + ':sub-operations', 'destination received %r for %d supplied instances (%s)' % (stores, n, where)))
         subs = [x for x in log if x[0] == 'sub-assoc']
         if n and (len(subs) != 1 or subs[0][1] != 'DEST'):
@@ -149,7 +157,7 @@ def run_case(case):
         if len(pend) != n:
             viol.append((sig + ':pending-count', '%d pending responses for %d sub-operations (%s)' % (len(pend), n, where)))
         for k, r in enumerate(pend, 1):
-            nf = case['vec'][:k].count('f')
+            nf = case['vec'][:k].count('f') + case['vec'][:k].count('r')
             nw = case['vec'][:k].count('w')
             performed_ok = r['comp'] == k or (isinstance(r['comp'], int) and r['comp'] + (r['fail'] or 0) + (r['warn'] or 0) == k)
             if not performed_ok or r['rem'] != n - k:
